@@ -751,8 +751,9 @@ fn t_new_fixed<T: KeyInit + BlockCipherEncrypt + BlockCipherDecrypt + Send + Syn
 fn t_debug<T: KeyInit + core::fmt::Debug>(k: &[u8]) -> Option<String> {
     let t = T::new_from_slice(k).ok()?;
     // a panic while formatting is an observation about Debug, not about construction
-    match catch_unwind(AssertUnwindSafe(|| format!("{:?}", t))) {
-        Ok(s) => Some(s),
+    match catch_unwind(AssertUnwindSafe(|| (format!("{:?}", t), format!("{:#?}", t)))) {
+        // the pretty form is appended only when it says something else than the plain form
+        Ok((s, pretty)) => Some(if pretty.split_whitespace().collect::<String>() == s.split_whitespace().collect::<String>() { s } else { format!("{} /* {{:#?}}: {} */", s, pretty) }),
         Err(e) => Some(format!("<<Debug panicked: {}>>", panic_msg(e))),
     }
 }
